@@ -55,7 +55,7 @@ func newWorker() *worker {
 	k.w.Connect(session.ConnectOpts{ClientID: "watcher", Username: "w"})
 	k.wid = wc.ID()
 	k.w.Subscribe(k.rw + "/w/")
-	for _, ch := range []string{"a/", "b/", "y/", "x/"} {
+	for _, ch := range []string{"a/", "b/", "c/", "y/", "x/"} {
 		k.w.Request("presence", map[string]interface{}{"key": k.rw, "channel": ch, "status": false, "changes": true})
 	}
 	k.env.Svc.VerifPresence().VerifBarrier()
@@ -357,6 +357,18 @@ func run(c *core.Ctx) {
 						cases = append(cases, Case{Will: w, Reqs: reqs, Full: full, Offset: off, Ending: "abort"})
 					}
 				}
+			}
+		}
+	}
+	// bounded family of longer sessions: three filters that share one bookkeeping bucket (a/a, b/b, c/c)
+	// subscribed in every order, then one of them unsubscribed, each way of ending at the boundary
+	col := []string{"sub:a/a/", "sub:b/b/", "sub:c/c/"}
+	perms := [][]int{{0, 1, 2}, {0, 2, 1}, {1, 0, 2}, {1, 2, 0}, {2, 0, 1}, {2, 1, 0}}
+	for _, pm := range perms {
+		for _, un := range []string{"unsub:a/a/", "unsub:b/b/", "unsub:c/c/"} {
+			reqs := []string{col[pm[0]], col[pm[1]], col[pm[2]], un}
+			for _, e := range endings {
+				cases = append(cases, Case{Will: "will-ok", Reqs: reqs, Full: 4, Ending: e})
 			}
 		}
 	}
